@@ -32,7 +32,7 @@ ASSUMPTIONS = [
     "a notification may also be delivered when nothing changed; what is judged is that one IS delivered (to every table member) after each accepted change",
     "bare moves change the cell only in Isobaric / Isotension (the drivers whose state includes the cell and which can revert it) and the atom count changes only in GrandCanonical (through the shipped exchange move next to the bare move)",
 ]
-REQUIRED = {"accepted_swaps_changing_atom_count": 5, "bare_move_calls": 1500, "bare_criteria_calls": 500, "falsy_results": 300, "truthy_results": 300, "atom_count_changes": 100, "cell_changes": 100, "roundtrips": 12, "attribute_accesses_logged": 2000, "bare_criteria_verdicts_checked": 300}
+REQUIRED = {"entries_replaced_under_their_name": 20, "accepted_swaps_changing_atom_count": 5, "bare_move_calls": 1500, "bare_criteria_calls": 500, "falsy_results": 300, "truthy_results": 300, "atom_count_changes": 100, "cell_changes": 100, "roundtrips": 12, "attribute_accesses_logged": 2000, "bare_criteria_verdicts_checked": 300}
 SHARD_TIMEOUT = {"quick": 900, "thorough": 3000}
 
 PROTOCOL = {"__call__", "evaluate", "on_atoms_changed", "on_cell_changed", "to_dict", "from_dict"}
@@ -301,7 +301,21 @@ def run(spec):
             rec.sample(wit, cap=2)
 
         try:
-            trace(mc, spec["steps"], snap=snap, on_trial=on_trial)
+            half = spec["steps"] // 2
+            trace(mc, half, snap=snap, on_trial=on_trial)
+            if i % 3 == 1:
+                # an entry of the move table replaced under its existing name in the middle of the run (through add_move
+                # or by assigning the entry's documented `move` attribute): the move now in the table is the one that
+                # is executed and notified from here on
+                name0, old_mv, crit0, beh0, res0, ck0 = users[0]
+                new_mv = UserMove(beh0, res0, tag=old_mv.tag)
+                if i % 2:
+                    mc.add_move(new_mv, criteria=crit0, name=name0, interval=1, probability=1.0, minimum_count=0)
+                else:
+                    mc.moves[name0].move = new_mv
+                users[0] = (name0, new_mv, mc.moves[name0].criteria if i % 2 else crit0, beh0, res0, ck0)
+                rec.count("entries_replaced_under_their_name")
+            trace(mc, spec["steps"] - half, snap=snap, on_trial=on_trial)
         except Exception as ex:  # noqa: BLE001
             import traceback
 
